@@ -251,8 +251,12 @@ class Ctx:
         except _Abort as a:
             if a.kind == "harness":
                 raise HarnessError(a.payload)
-        except Violation:
-            pass
+        except Violation as exc:
+            if state["best"] is None:
+                # a Violation that did not pass through a recording wrapper:
+                # never drop it silently
+                state["best"] = state["last"] = (
+                    {"unrecorded_case": True}, str(exc), 0)
         except (he.FailedHealthCheck, he.Unsatisfiable, he.InvalidArgument
                 ) as exc:
             raise HarnessError("hypothesis: %r" % (exc,))
@@ -314,6 +318,27 @@ def logged(fn):
             if isinstance(exc, UnsatisfiedAssumption):
                 raise
             if state is None:
+                raise
+            msg = ctx._wrap_failure(state, list(self.history), exc)
+            raise Violation(msg) from None
+    return wrapper
+
+
+def checked(fn):
+    """Decorator for state-machine invariants: a failure is attributed to the
+    history recorded so far."""
+    @functools.wraps(fn)
+    def wrapper(self):
+        ctx = getattr(self, "_ctx", None)
+        state = getattr(self, "_state", None)
+        try:
+            with case_timer():
+                return fn(self)
+        except _Abort:
+            raise
+        except Exception as exc:  # noqa
+            from hypothesis.errors import UnsatisfiedAssumption
+            if isinstance(exc, UnsatisfiedAssumption) or state is None:
                 raise
             msg = ctx._wrap_failure(state, list(self.history), exc)
             raise Violation(msg) from None
